@@ -570,6 +570,11 @@ def _late():
 DISKT = z3.ArraySort(U, U)
 
 
+CERTT = z3.ArraySort(U, z3.ArraySort(U, BoolS))
+GALGS_ARR = z3.Const("GALGS_ARR", z3.ArraySort(IntS, U))
+GALGS_N = z3.Const("GALGS_N", IntS)
+
+
 class DiskModel(Model):
     """Ghost file system (A-FS, A-IO):
        DSTATE : path -> {0 absent, 1 partial, 2 complete}
@@ -582,6 +587,10 @@ class DiskModel(Model):
         st.ghost["DSTATE"] = z3.Const("DSTATE0", z3.ArraySort(U, IntS))
         st.ghost["FXN"] = VInt(z3.Const("FXN0", IntS))
         st.ghost["__fs_init"] = False
+        # ghost label: CERT[root][rel] = "the list file rel of the dataset at
+        # root is certified" (see contracts/c42_metadata.py GINV); a label
+        # only: no program value depends on it
+        st.ghost["CERT"] = z3.Const("CERT0", CERTT)
 
     def _facts(self, st):
         if st.ghost.get("__fs_init"):
@@ -592,6 +601,8 @@ class DiskModel(Model):
         st.pc.insert(0, z3.ForAll([p], z3.And(d0[p] >= 0, d0[p] <= 2)))
 
     def havoc_ghosts(self, st, ghosts, has_yield):
+        if "cert" in ghosts:
+            self.havoc_cert(st)
         if "fs" in ghosts:
             self._facts(st)
             old = st.ghost["DSTATE"]
@@ -608,6 +619,9 @@ class DiskModel(Model):
             n = st.fresh("FXN", IntS)
             st.assume(n >= oldn)
             st.ghost["FXN"] = VInt(n)
+
+    def havoc_cert(self, st):
+        st.ghost["CERT"] = st.fresh("CERT", CERTT)
 
     def fs_access(self, st, path, line, what):
         """C17: every file-system access of a function with a declared
@@ -1166,6 +1180,9 @@ class PathModel2(Model):
         a = z3.Const("a!p", U)
         b = z3.Const("b!p", U)
         c = z3.Const("c!p", U)
+        i_ = z3.Const("i!p", IntS)
+        k_ = z3.Const("k!p", IntS)
+        m_ = z3.Const("m!p", IntS)
         return [
             # joining with an absolute right operand discards the left one
             z3.ForAll([a, b], z3.Implies(ISABS(b), PJOIN(a, b) == b),
@@ -1228,6 +1245,97 @@ class PathModel2(Model):
             z3.And(z3.Not(ISABS(DOT)), z3.Not(HASDD(DOT)), PNAME(DOT) == DOT),
         ]
 
+    def lemma_axioms(self):
+        """Facts about components and prefixes.  NOT given to the solver as
+        quantified axioms (their terms feed each other's triggers: matching
+        loops); a proof step asks for the instances it needs with the spec
+        built-in path_inst(p, k, m).  Audited against pathlib together with
+        axioms()."""
+        a = z3.Const("a!p", U)
+        b = z3.Const("b!p", U)
+        i_ = z3.Const("i!p", IntS)
+        k_ = z3.Const("k!p", IntS)
+        m_ = z3.Const("m!p", IntS)
+        return [
+            # components of a join: those of the left operand, then those of
+            # the (relative) right operand
+            z3.ForAll([a, b, i_], z3.Implies(
+                z3.And(z3.Not(ISABS(b)), 0 <= i_, i_ < NPARTS(a)),
+                PART(PJOIN(a, b), i_) == PART(a, i_)),
+                patterns=[PART(PJOIN(a, b), i_)]),
+            z3.ForAll([a, b, i_], z3.Implies(
+                z3.And(z3.Not(ISABS(b)), NPARTS(a) <= i_,
+                       i_ < NPARTS(a) + NPARTS(b)),
+                PART(PJOIN(a, b), i_) == PART(b, i_ - NPARTS(a))),
+                patterns=[PART(PJOIN(a, b), i_)]),
+            # prefixes: PPREFIX(a, k) = Path(*a.parts[:k]) for k >= 0
+            z3.ForAll([a, k_], z3.Implies(
+                z3.And(k_ >= 0, k_ <= NPARTS(a)),
+                NPARTS(PPREFIX(a, k_)) == k_), patterns=[PPREFIX(a, k_)]),
+            z3.ForAll([a, k_], z3.Implies(k_ >= NPARTS(a),
+                                          PPREFIX(a, k_) == a),
+                      patterns=[PPREFIX(a, k_)]),
+            z3.ForAll([a, k_, i_], z3.Implies(
+                z3.And(0 <= i_, i_ < k_, i_ < NPARTS(a)),
+                PART(PPREFIX(a, k_), i_) == PART(a, i_)),
+                patterns=[PART(PPREFIX(a, k_), i_)]),
+            z3.ForAll([a, k_, m_], z3.Implies(
+                z3.And(0 <= m_, m_ <= k_),
+                PPREFIX(PPREFIX(a, k_), m_) == PPREFIX(a, m_)),
+                patterns=[PPREFIX(PPREFIX(a, k_), m_)]),
+            z3.ForAll([a, k_], z3.Implies(
+                z3.And(k_ >= 0, z3.Not(ISABS(a))),
+                z3.And(z3.Not(ISABS(PPREFIX(a, k_))),
+                       z3.Implies(HASDD(PPREFIX(a, k_)), HASDD(a)))),
+                patterns=[PPREFIX(a, k_)]),
+            # one more component: prefix(k + 1) = prefix(k) / part(k)
+            z3.ForAll([a, k_], z3.Implies(
+                z3.And(0 <= k_, k_ < NPARTS(a), z3.Not(ISABS(a))),
+                PPREFIX(a, k_ + 1) == PJOIN(PPREFIX(a, k_), PART(a, k_))),
+                patterns=[z3.MultiPattern(PPREFIX(a, k_), PART(a, k_))]),
+            # a component of a relative path is a single plain name
+            z3.ForAll([a, i_], z3.Implies(
+                z3.And(0 <= i_, i_ < NPARTS(a), z3.Not(ISABS(a))),
+                z3.And(NPARTS(PART(a, i_)) == 1, z3.Not(ISABS(PART(a, i_))),
+                       z3.Implies(HASDD(PART(a, i_)), HASDD(a)),
+                       PNAME(PART(a, i_)) == PART(a, i_),
+                       PART(PART(a, i_), 0) == PART(a, i_))),
+                patterns=[PART(a, i_)]),
+            # the last component is the name; a path is its directory / name
+            z3.ForAll([a], z3.Implies(
+                z3.And(NPARTS(a) >= 1, z3.Not(ISABS(a))),
+                z3.And(PNAME(a) == PART(a, NPARTS(a) - 1),
+                       a == PJOIN(PPREFIX(a, NPARTS(a) - 1), PNAME(a)))),
+                patterns=[PNAME(a)]),
+            # lexical containment in terms of components
+            z3.ForAll([a, b], z3.Implies(
+                z3.And(z3.Not(ISABS(a)), z3.Not(ISABS(b))),
+                INSIDE(a, b) == z3.And(NPARTS(a) <= NPARTS(b),
+                                       PPREFIX(b, NPARTS(a)) == a)),
+                patterns=[INSIDE(a, b)]),
+        ]
+
+    def path_inst(self, p, k, m=None, q=None):
+        """ground instances of lemma_axioms() at a := p, k := i := k, m := m
+        (default k - 1), b := q (default p)"""
+        a = z3.Const("a!p", U)
+        b = z3.Const("b!p", U)
+        i_ = z3.Const("i!p", IntS)
+        k_ = z3.Const("k!p", IntS)
+        m_ = z3.Const("m!p", IntS)
+        m = k - 1 if m is None else m
+        q = p if q is None else q
+        out = []
+        for ax in self.lemma_axioms():
+            body = ax.body()
+            n = ax.num_vars()
+            names = [ax.var_name(j) for j in range(n)]
+            vals = {"a!p": p, "b!p": q, "i!p": k, "k!p": k, "m!p": m}
+            # de Bruijn: variable j (in binding order) has index n-1-j
+            subs = [vals[names[j]] for j in range(n)]
+            out.append(z3.substitute_vars(body, *reversed(subs)))
+        return z3.And(out)
+
     def getattr(self, st, obj, attr, line):
         if isinstance(obj, VU):
             if attr == "parts":
@@ -1251,6 +1359,21 @@ class PathModel2(Model):
             if name == "is_relative_to":
                 other = eng.coerce(st, eng.eval(st, node.args[0]), "U")
                 return VBool(INSIDE(other, recv.t))
+            if name == "joinpath" and not node.keywords:
+                # p.joinpath(a, b, *q.parts[:k]): successive joins; a starred
+                # prefix of another path's parts contributes that prefix path
+                t = recv.t
+                for a_ in node.args:
+                    if isinstance(a_, ast.Starred):
+                        v = eng.eval(st, a_.value)
+                        if not (isinstance(v, VU) and getattr(
+                                v, "parts_of", None) is not None):
+                            raise self.E.Unsupported(
+                                "joinpath(*x) where x is not a parts view")
+                        t = PJOIN(t, v.parts_of)
+                    else:
+                        t = PJOIN(t, eng.coerce(st, eng.eval(st, a_), "U"))
+                return VU(t)
         return NotImplemented
 
     def len_of(self, st, v, line):
@@ -1564,3 +1687,127 @@ class DictCompModel(Model):
 
 
 ALL = [DictCompModel] + ALL
+
+
+# ---------------------------------------------------------------------------
+BA = z3.ArraySort(IntS, BoolS)
+CNT = z3.Function("CNT", BA, IntS, IntS)     # CNT(A, n) = |{i : 0 <= i < n, A[i]}|
+IDX = z3.Function("IDX", BA, IntS, IntS)     # IDX(A, j) = index of the j-th true entry
+
+
+class FilterCompModel(Model):
+    """[x for x in xs if C(x)] over a list value xs: the sub-list of the
+    elements satisfying C, in order.  With A[i] = C(xs[i]):
+
+        len(result) = CNT(A, len(xs)),  result[j] = xs[IDX(A, j)],
+
+    where CNT / IDX are the counting function and the enumeration of the true
+    entries of A.  Only the facts below about CNT / IDX are given to the
+    solver; each is a theorem about finite 0/1 sequences, machine-checked in
+    lemmas/Count.lean (A-LEMMA-COUNT), none is an assumption about the code.
+    C is evaluated in specification mode (attribute loads of typed records,
+    len, comparisons: nothing that can raise).
+
+    {E(x) for x in xs} over a list value: the set of the E-values."""
+
+    def axioms(self):
+        A = z3.Const("A!fc", BA)
+        B = z3.Const("B!fc", BA)
+        n = z3.Const("n!fc", IntS)
+        i = z3.Const("i!fc", IntS)
+        j = z3.Const("j!fc", IntS)
+        return [
+            # bounds
+            z3.ForAll([A, n], z3.Implies(n >= 0, z3.And(
+                CNT(A, n) >= 0, CNT(A, n) <= n)), patterns=[CNT(A, n)]),
+            # partition: complementary predicates count to n
+            z3.ForAll([A, B, n], z3.Implies(
+                z3.And(n >= 0, z3.ForAll([i], z3.Implies(
+                    z3.And(0 <= i, i < n), A[i] != B[i]))),
+                CNT(A, n) + CNT(B, n) == n),
+                patterns=[z3.MultiPattern(CNT(A, n), CNT(B, n))]),
+            # at most one true entry
+            z3.ForAll([A, n], z3.Implies(
+                z3.And(n >= 0, z3.ForAll([i, j], z3.Implies(
+                    z3.And(0 <= i, i < j, j < n),
+                    z3.Not(z3.And(A[i], A[j]))))),
+                CNT(A, n) <= 1), patterns=[CNT(A, n)]),
+            # enumeration of the true entries below n: in range, true,
+            # strictly increasing
+            z3.ForAll([A, n, j], z3.Implies(
+                z3.And(0 <= j, j < CNT(A, n)),
+                z3.And(0 <= IDX(A, j), IDX(A, j) < n, A[IDX(A, j)])),
+                patterns=[z3.MultiPattern(IDX(A, j), CNT(A, n))]),
+            z3.ForAll([A, n, i, j], z3.Implies(
+                z3.And(0 <= i, i < j, j < CNT(A, n)),
+                IDX(A, i) < IDX(A, j)),
+                patterns=[z3.MultiPattern(IDX(A, i), IDX(A, j), CNT(A, n))]),
+            # ... and it reaches every true entry below n
+            z3.ForAll([A, n, i], z3.Implies(
+                z3.And(0 <= i, i < n, A[i]),
+                z3.And(0 <= CNT(A, i), CNT(A, i) < CNT(A, n),
+                       IDX(A, CNT(A, i)) == i)),
+                patterns=[z3.MultiPattern(A[i], CNT(A, n))]),
+        ]
+
+    def _elem_env(self, st, g, elem):
+        saved = st.locals
+        st.locals = dict(saved)
+        st.locals[g.target.id] = elem
+        return saved
+
+    def comprehension(self, st, node, kind):
+        eng = self.eng
+        if kind not in ("list", "set") or len(node.generators) != 1:
+            return None
+        g = node.generators[0]
+        if g.is_async or not isinstance(g.target, ast.Name):
+            return None
+        if kind == "list" and not (len(g.ifs) == 1 and isinstance(
+                node.elt, ast.Name) and node.elt.id == g.target.id):
+            return None
+        if kind == "set" and g.ifs:
+            return None
+        src = eng.eval(st, g.iter)
+        if not isinstance(src, VList):
+            return None
+        k = z3.Const("k!fc%d" % st.fresh_id(), IntS)
+        saved = self._elem_env(st, g, wrap(src.eshape, src.arr[k]))
+        st.spec += 1
+        try:
+            if kind == "list":
+                body = eng.truthy(st, eng.eval(st, g.ifs[0]))
+            else:
+                body = eng.coerce(st, eng.eval(st, node.elt), "U")
+        finally:
+            st.spec -= 1
+            st.locals = saved
+        if kind == "list":
+            A = st.fresh("filt", BA)
+            st.assume(z3.ForAll([k], z3.Implies(
+                z3.And(0 <= k, k < src.n), A[k] == body)))
+            n = CNT(A, src.n)
+            arr = st.fresh("filt_arr", src.arr.sort())
+            j = z3.Const("j!fc", IntS)
+            st.assume(z3.ForAll([j], z3.Implies(
+                z3.And(0 <= j, j < n), arr[j] == src.arr[IDX(A, j)]),
+                patterns=[arr[j]]))
+            st.assume(z3.And(n >= 0, n <= src.n))
+            out = VList(arr, n, src.eshape, None)
+            out.filter_of = (src, A)
+            return out
+        # set of values
+        dom = st.fresh("set_dom", z3.ArraySort(U, BoolS))
+        x = z3.Const("x!set", U)
+        st.assume(z3.ForAll([k], z3.Implies(z3.And(0 <= k, k < src.n),
+                                            dom[body])))
+        w = z3.Function("SETW!%d" % st.fresh_id(), U, IntS)
+        st.assume(z3.ForAll([x], z3.Implies(dom[x], z3.And(
+            0 <= w(x), w(x) < src.n,
+            z3.substitute(body, (k, w(x))) == x)), patterns=[dom[x]]))
+        v = VDict(dom, st.fresh("set_val", z3.ArraySort(U, U)), "U")
+        v.is_set = True
+        return v
+
+
+ALL = [FilterCompModel] + ALL
